@@ -49,6 +49,10 @@ type c15MakeCase struct {
 	Pending        bool                      `json:"pending"`
 	PendingErr     bool                      `json:"pending_err,omitempty"`
 	Rooms          map[string]c15AllowedRoom `json:"rooms,omitempty"`
+	// SenderQuerierErr: the UserIDQuerier fails for the requesting user's sender ID (a lookup failure),
+	// and answers for everybody else; no template can be demanded then, and none may be handed out
+	// for an event the rules refuse
+	SenderQuerierErr bool `json:"sender_querier_err,omitempty"`
 }
 
 var c15AllowPool = []string{"!space1:local.example", "!space2:other.example", "!space3:local.example"}
@@ -276,7 +280,17 @@ func c15MakeCheck(ctx *vfCtx, c c15MakeCase) {
 			violated++
 		}
 	}
-	allGood := gVersion && gOrigin && gInRoom && gRestricted && allAllowed && c.Builder == "ok" && !querierTrouble
+	allGood := gVersion && gOrigin && gInRoom && gRestricted && allAllowed && c.Builder == "ok" && !querierTrouble && !c.SenderQuerierErr
+	userQuerier := spec.UserIDForSender(vfUserIDForSender)
+	if c.SenderQuerierErr {
+		ctx.Class("sender-querier-error")
+		userQuerier = func(roomID spec.RoomID, senderID spec.SenderID) (*spec.UserID, error) {
+			if string(senderID) == c.User {
+				return nil, fmt.Errorf("c15 scripted user lookup failure")
+			}
+			return vfUserIDForSender(roomID, senderID)
+		}
+	}
 
 	// ---- run
 	rec := &c15BuilderRec{}
@@ -289,7 +303,7 @@ func c15MakeCheck(ctx *vfCtx, c c15MakeCase) {
 			resp, err := HandleMakeLeave(HandleMakeLeaveInput{
 				UserID: *user, SenderID: spec.SenderID(c.User), RoomID: *roomID, RoomVersion: RoomVersion(c.Version),
 				RequestOrigin: spec.ServerName(c.Origin), LocalServerName: c15Local, LocalServerInRoom: c.LocalInRoom,
-				UserIDQuerier: vfUserIDForSender, BuildEventTemplate: c15TemplateBuilder(c, b, rec),
+				UserIDQuerier: userQuerier, BuildEventTemplate: c15TemplateBuilder(c, b, rec),
 			})
 			herr = err
 			if resp != nil {
@@ -304,7 +318,7 @@ func c15MakeCheck(ctx *vfCtx, c c15MakeCase) {
 		resp, err := HandleMakeJoin(HandleMakeJoinInput{
 			Context: c15Quiet(), UserID: *user, SenderID: spec.SenderID(c.User), RoomID: *roomID, RoomVersion: RoomVersion(c.Version),
 			RemoteVersions: remote, RequestOrigin: spec.ServerName(c.Origin), LocalServerName: c15Local, LocalServerInRoom: c.LocalInRoom,
-			RoomQuerier: q, UserIDQuerier: vfUserIDForSender, BuildEventTemplate: c15TemplateBuilder(c, b, rec),
+			RoomQuerier: q, UserIDQuerier: userQuerier, BuildEventTemplate: c15TemplateBuilder(c, b, rec),
 		})
 		herr = err
 		if resp != nil {
@@ -426,6 +440,7 @@ func c15MakeGen(leave bool) func(t *rapid.T) c15MakeCase {
 		c.LocalInRoom = true
 		c.Builder = "ok"
 		c.RemoteVersions = []string{c.Version}
+		c.SenderQuerierErr = rapid.IntRange(0, 5).Draw(t, "senderQuerierErr") == 0
 		if rapid.Bool().Draw(t, "moreVersions") {
 			c.RemoteVersions = append([]string{"1", "10"}, c.Version, "org.example.unknown")
 		}
